@@ -4,6 +4,7 @@ import (
 	"verif/engines/chunk"
 	"verif/engines/fault"
 	"verif/engines/hostile"
+	"verif/engines/pipe"
 	"verif/engines/pull"
 	"verif/simkit"
 )
@@ -64,5 +65,14 @@ func init() {
 			"real": {"json/ubjson/cborl Visitor (encoders)", "json/ubjson/cborl Parser and Decoder", "gotype.Fold / Iterator", "EnsureExtVisitor adapters (array.go, map.go, string.go)"},
 			"stub": {"io.Writer (simkit.Writer, fails permanently from write k)", "downstream visitor (simkit.Tap returning a unique error at event k)", "io.Reader (simkit.Reader)"}},
 		Assumptions: []string{"callers stop at the first error, as the io.Writer and Visitor contracts prescribe", "maps passed through extended events have at most one entry (iteration order has no seam)"},
+	}
+	registry["C08"] = &propCfg{
+		Engine: pipe.Engine{}, EngineName: "pipe", Level: "exploration",
+		QuickRuns: 30000, ThoroughRuns: 3000000, QuickCapS: 60, ThoroughCapS: 900,
+		Rule: "one run = one source stream (a single value, or 2-4 concatenated container documents) of a drawn source format written by the independent writers, piped ParseReader(simkit.Reader) -> encoder of a drawn target format under 3-6 read plans (whole, 1-byte, seeded short reads; EOF with/after data); evaluations = pipeline executions; distinct by (pair, source bytes, read plan, eof mode); every execution is non-trivial (the transport schedules every read)",
+		Components: map[string][]string{
+			"real": {"json/ubjson/cborl Parser (ParseReader, io.Copy)", "json/ubjson/cborl Visitor (encoders)"},
+			"stub": {"io.Reader (simkit.Reader)", "io.Writer (simkit.Writer)", "pass-through contract tap between parser and encoder"}},
+		Assumptions: []string{"trusted base: independent writers and reference readers (encoding/json token stream; hand-written CBOR and UBJSON readers), cross-checked on every run", "value relation of DESIGN Appendix C"},
 	}
 }
